@@ -160,6 +160,11 @@ class Ctx:
         name = mod.__name__.rsplit(".", 1)[-1].upper()
         if name in self.active:
             return None
+        # a neighbour's rules are evaluated only in the configurations that neighbour is defined (and validated) for:
+        # e.g. the hash pairing of C08 does not exist in a build without the `hash` feature
+        cfgs = set(getattr(mod, "CONFIGS_QUICK", ())) | set(getattr(mod, "CONFIGS_THOROUGH", ()))
+        if self.cfg and cfgs and self.cfg not in cfgs:
+            return None
         self.active.add(name)
         start = len(self.obs)
         nn = len(self.notes)
